@@ -30,9 +30,14 @@ ASSUMPTIONS = ['between two scheduling points neither thread touches state the o
 OMEN = c15.omen(c15.OMEN_X, [(1, .375), (2, .325)])
 
 
-def the_spec():
+# the same model with both levels at one probability: they share ONE Markov pre-terminal, and the window between the last guess of level 1
+# and the first guess of level 2 is a moment at which a quit can arrive without any level noticing it
+OMEN_TIED = c15.omen(c15.OMEN_X, [(1, .375), (2, .375)])
+
+
+def the_spec(tied=False):
     spec = dict(D.TERMINALS[0])
-    spec.update(grammar=[('D1', .5), ('M', .4), ('D2', .1)], prince=D.PRINCE, omen=OMEN)
+    spec.update(grammar=[('D1', .5), ('M', .4), ('D2', .1)], prince=D.PRINCE, omen=OMEN_TIED if tied else OMEN)
     return spec
 
 
@@ -45,12 +50,15 @@ def scripts(tier):
 
 
 def shards(tier):
-    return [(scen, i) for scen in ('fresh', 'resumed') for i in range(len(scripts(tier)))] + [('subprocess', 0)] + ST.shards()
+    sh = [(scen, i) for scen in ('fresh', 'resumed') for i in range(len(scripts(tier)))]
+    sh += [('tied', i) for i, sc in enumerate(scripts(tier)) if 'q' in sc and 'h' not in sc]
+    return sh + [('subprocess', 0)] + ST.shards()
 
 
 def bounds(tier):
     return {'preemption_bound_completed': 2 if tier == 'quick' else '3 (2 for scripts with a help request)', 'scripts': scripts(tier),
-            'scenarios': ['fresh session', 'session resumed inside a Markov level (status request can see the placeholder item)'],
+            'scenarios': ['fresh session', 'session resumed inside a Markov level (status request can see the placeholder item)',
+                          'fresh session on a ruleset whose two Markov levels are tied in one pre-terminal (scripts with a quit)'],
             'ruleset': 'D1(2 groups) / M (2 levels of 3 strings) / D2: 5 pre-terminals, 10 guesses', **ST.bounds(tier)}
 
 
@@ -127,7 +135,7 @@ def run_shard(shard, tier, acc):
     script = scripts(tier)[si]
     # the help text alone is ~80 stderr writes (= scheduling points): scripts containing 'h' stay at bound 2 in the thorough tier
     bound = 3 if (tier == 'thorough' and 'h' not in script) else 2
-    spec = the_spec()
+    spec = the_spec(tied=(scen == 'tied'))
     td = tree.scratch_tree()
     R.write_ruleset(os.path.join(td, 'Rules', 'v'), spec)
     lab, pts = c15.labelled_language(spec)
@@ -260,7 +268,7 @@ def replay(case):
         run_subprocess(acc)
         fs = [f for f in acc.failures if f['case']['stdin'] == case['stdin']]
         return fs[0]['msg'] if fs else None
-    spec = the_spec()
+    spec = the_spec(tied=(case['scenario'] == 'tied'))
     td = tree.scratch_tree()
     R.write_ruleset(os.path.join(td, 'Rules', 'v'), spec)
     argv = ['-r', 'v']
@@ -273,9 +281,26 @@ def replay(case):
     U = S.run_guesser(td, argv)
     S.set_session(td, start_sav, start_omn)
     o = E.run_scheduled(td, argv, case['script'], case['choices'])
-    tree.rmtree(td)
+    msg = None
+    out = o.run.stdout
     if o.run.exc:
-        return 'crash: ' + o.run.exc
-    if o.exit_write is None and o.run.stdout != U.stdout:
-        return 'no quit requested but stream has %d of %d guesses (thread exception %s)' % (len(o.run.stdout), len(U.stdout), o.thread_exc)
-    return None
+        msg = 'crash: ' + o.run.exc
+    elif o.exit_write is None and out != U.stdout:
+        msg = 'no quit requested but stream has %d of %d guesses (thread exception %s)' % (len(out), len(U.stdout), o.thread_exc)
+    elif o.exit_write is not None:
+        if out != U.stdout[:len(out)]:
+            msg = 'stream %r is not a prefix of the uninterrupted stream' % (out[-3:],)
+        elif o.run.sav_raw is None:
+            msg = 'explicit quit after %d guesses left no save file' % len(out)
+        elif len(out) < len(U.stdout):
+            # the two runs together must give the whole stream
+            S.set_session(td, o.run.sav_raw, o.run.omn)
+            B = S.run_guesser(td, ['-r', 'v', '--load'])
+            have = set(out) | set(B.stdout)
+            lost = [l for l in U.stdout if l not in have]
+            if B.exc:
+                msg = 'resume raised %s' % B.exc.strip().splitlines()[-1]
+            elif lost:
+                msg = 'lost-across-quit: %d guesses appear neither before the quit (after %d guesses) nor in the resumed run, e.g. %r' % (len(lost), len(out), lost[:4])
+    tree.rmtree(td)
+    return msg
